@@ -116,6 +116,62 @@ impl Spec {
             }
         }
     }
+    /// one queued read record applied (apply_reads): counted once; a hit never moves the stamp backwards and makes an admitted
+    /// entry most recently used
+    fn read_record(&mut self, s: &mut Snap, k: u8, hit: bool, ts: Instant) {
+        self.sketch.increment(k as u64);
+        if hit {
+            if let Some(i) = s.p.iter().position(|e| e.key == k) {
+                let mut e = s.p.remove(i);
+                if e.ta < ts { e.ta = ts; }
+                s.p.push(e);
+            }
+        }
+    }
+    /// one queued write record of a key that is NOT resident applied (handle_upsert, not-admitted case) against the running counters
+    fn fresh_insert_record(&mut self, s: &mut Snap, k: u8, v: u8, ts: Instant) {
+        let cfg = self.cfg;
+        let w = weight_of(&cfg, v);
+        let fresh = E { key: k, value: v, weight: w, ta: ts, tm: ts };
+        let fits = match cfg.cap { Some(l) => s.ws + w as u64 <= l, None => true };
+        if fits {
+            s.p.push(fresh); if cfg.ttl.is_some() { s.wo.push(k); }
+            s.ec += 1; s.ws = s.ws.saturating_add(w as u64);
+        } else if cfg.cap.map_or(false, |l| w as u64 > l) {
+        } else {
+            let cf = self.sketch.frequency(k as u64) as u32;
+            let mut n = None; let mut acc = 0u64;
+            if acc >= w as u64 { n = Some(0); }
+            else { for (i, e) in s.p.iter().enumerate() { acc += e.weight as u64; if acc >= w as u64 { n = Some(i + 1); break; } } }
+            let admitted = match n { Some(n) => cf > s.p[..n].iter().map(|e| self.sketch.frequency(e.key as u64) as u32).sum::<u32>(), None => false };
+            if admitted {
+                let victims: Vec<u8> = s.p[..n.unwrap()].iter().map(|e| e.key).collect();
+                for vk in victims { self.remove(s, vk); }
+                s.p.push(fresh); if cfg.ttl.is_some() { s.wo.push(k); }
+                s.ec += 1; s.ws = s.ws.saturating_add(w as u64);
+            }
+        }
+    }
+    /// a LATE BATCH: lookups and inserts of keys that are not resident, made while nothing is applied (after the housekeeper's
+    /// start-up window), then ONE maintenance run: all read records in order, then all write records in order against the
+    /// RUNNING counters, then the tail. `items`: (op, clock reading of the call). Returns the expected lookup answers.
+    fn apply_batch(&mut self, s: &mut Snap, items: &[(Op, Instant)], now: Instant) -> String {
+        let cfg = self.cfg;
+        let mut res = Vec::new();
+        let mut reads: Vec<(u8, bool, Instant)> = Vec::new();
+        for (op, t) in items {
+            if let Op::Get(k) = op {
+                let hit = s.p.iter().find(|e| e.key == *k && !hidden(&cfg, s.va, e.ta, e.tm, *t)).map(|e| e.value);
+                res.push(match hit { Some(v) => format!("Some({})", v), None => "None".into() });
+                reads.push((*k, hit.is_some(), *t));
+            }
+        }
+        for (k, hit, t) in reads { self.read_record(s, k, hit, t); }
+        for (op, t) in items { if let Op::Insert(k, v) = op { self.fresh_insert_record(s, *k, *v, *t); } }
+        self.maintenance_tail(s, now);
+        s.freqs = PROBES.iter().map(|h| self.sketch.frequency(*h)).collect();
+        res.join(",")
+    }
     /// one operation followed by a full maintenance run
     fn apply(&mut self, s: &mut Snap, op: Op, now: Instant) -> String {
         let cfg = self.cfg;
@@ -292,6 +348,76 @@ pub fn run_history_a(cfg: Cfg, ops: &[Op]) -> Option<(usize, Finding)> {
     None
 }
 
+/// regime C ("late batches"): after the housekeeper's start-up window nothing is applied until `sync()`. `Op::Sync` ends a batch.
+/// A batch of lookups and inserts of NON-RESIDENT, pairwise different keys is compared with the executable specification of one
+/// maintenance run over the whole batch (`Spec::apply_batch`: reads in order, then writes in order against the running counters);
+/// every other operation is a batch of its own (operation, then `sync()`), as in regime A. Overwrites of resident keys are kept
+/// single so that the known-broken pending-update window (KF-SYNC-1) stays closed.
+pub fn run_history_c(cfg: Cfg, ops: &[Op]) -> Option<(usize, Finding)> {
+    let (c, mock) = build(cfg);
+    mock.increment(Duration::from_secs(1));
+    let mut spec = Spec { cfg, sketch: FrequencySketch::default() };
+    let mut errs = Vec::new();
+    c.sync();
+    let mut cur = snap_of(&peek(&c.base), &mut errs, &cfg);
+    {
+        let mut exp = Snap { p: Vec::new(), wo: Vec::new(), ec: 0, ws: 0, va: None, enabled: false, freqs: Vec::new() };
+        let now = c.base.current_time_from_expiration_clock();
+        spec.apply(&mut exp, Op::Sync, now);
+        if let Some(f) = classify(Op::Sync, &cfg, &exp, &cur, "", "", &errs) { return Some((0, f)); }
+    }
+    let mut i = 0usize;
+    while i < ops.len() {
+        // the longest prefix that is a proper batch
+        let mut j = i; let mut inserted: Vec<u8> = Vec::new();
+        while j < ops.len() && j - i < 40 {
+            match ops[j] {
+                Op::Get(k) if !inserted.contains(&k) => {}
+                Op::Insert(k, _) if !inserted.contains(&k) && !cur.p.iter().any(|e| e.key == k) => inserted.push(k),
+                Op::Advance(_) => {}
+                _ => break,
+            }
+            j += 1;
+        }
+        if j == i || inserted.is_empty() {
+            // a single operation followed by maintenance (regime A step); a `Sync` alone is just a maintenance run
+            let op = ops[i];
+            let now = c.base.current_time_from_expiration_clock();
+            let mut exp = cur.clone();
+            let exp_res = spec.apply(&mut exp, op, now);
+            let got_res = exec(&c, &mock, op);
+            c.sync();
+            let mut errs = Vec::new();
+            let got = snap_of(&peek(&c.base), &mut errs, &cfg);
+            if let Some(f) = classify(op, &cfg, &exp, &got, &exp_res, &got_res, &errs) { return Some((i, f)); }
+            cur = got; i += 1;
+            continue;
+        }
+        let mut items: Vec<(Op, Instant)> = Vec::new();
+        let mut got_res: Vec<String> = Vec::new();
+        for op in &ops[i..j] {
+            let t = c.base.current_time_from_expiration_clock();
+            let r = exec(&c, &mock, *op);
+            if let Op::Get(_) = op { got_res.push(r); }
+            items.push((*op, t));
+        }
+        let now = c.base.current_time_from_expiration_clock();
+        c.sync();
+        let mut exp = cur.clone();
+        let exp_res = spec.apply_batch(&mut exp, &items, now);
+        let mut errs = Vec::new();
+        let got = snap_of(&peek(&c.base), &mut errs, &cfg);
+        // classified as the admission of the batch's last new key (residents: C03 / C04 / C12 / C13; order: C12 / C13; ...)
+        let rep = items.iter().rev().map(|(o, _)| *o).find(|o| matches!(o, Op::Insert(..))).unwrap();
+        if let Some(mut f) = classify(rep, &cfg, &exp, &got, &exp_res, &got_res.join(","), &errs) {
+            f.what = format!("after a batch of {} operations applied by one maintenance run: {}", j - i, f.what);
+            return Some((j - 1, f));
+        }
+        cur = got; i = j;
+    }
+    None
+}
+
 /// regime B: arbitrary sync placement; history-level reference model of what a lookup may return
 pub fn run_history_b(cfg: Cfg, ops: &[Op]) -> Option<(usize, Finding)> { run_history_b2(cfg, ops, false) }
 /// `late`: leave the housekeeper's start-up window first. For the first 500 ms after construction every operation runs pending
@@ -450,7 +576,7 @@ struct Rng(u64);
 impl Rng { fn next(&mut self) -> u64 { self.0 ^= self.0 << 13; self.0 ^= self.0 >> 7; self.0 ^= self.0 << 17; self.0 } fn below(&mut self, n: usize) -> usize { (self.next() % n as u64) as usize } }
 
 fn shrink(cfg: Cfg, ops: Vec<Op>, tags: &'static str, regime: u8) -> Vec<Op> {
-    let run = |o: &[Op]| if regime == 0 { run_history_a(cfg, o) } else { run_history_b2(cfg, o, regime == 2) };
+    let run = |o: &[Op]| if regime == 0 { run_history_a(cfg, o) } else if regime == 3 { run_history_c(cfg, o) } else { run_history_b2(cfg, o, regime == 2) };
     let mut cur = ops;
     loop {
         let mut progressed = false;
@@ -506,16 +632,16 @@ fn verif_rt_sync() {
     let mut histories = 0u64; let mut steps = 0u64; let mut findings = 0;
     let mut seen: Vec<(&'static str, u8, bool)> = Vec::new();
     let mut handle = |cfg: Cfg, seq: &[Op], regime: u8, findings: &mut i32, seen: &mut Vec<(&'static str, u8, bool)>| {
-        let r = if regime == 0 { run_history_a(cfg, seq) } else { run_history_b2(cfg, seq, regime == 2) };
+        let r = if regime == 0 { run_history_a(cfg, seq) } else if regime == 3 { run_history_c(cfg, seq) } else { run_history_b2(cfg, seq, regime == 2) };
         if let Some((at, f)) = r {
             // one report per (tags, regime, known-family-or-not): a finding of the known family never hides another one
             let kf = f.what.contains("pattern=KF-");
             if !seen.contains(&(f.tags, regime, kf)) {
                 seen.push((f.tags, regime, kf));
                 let s = shrink(cfg, seq[..(at + 1).min(seq.len())].to_vec(), f.tags, regime);
-                let (at2, f2) = (if regime == 0 { run_history_a(cfg, &s) } else { run_history_b2(cfg, &s, regime == 2) }).unwrap();
+                let (at2, f2) = (if regime == 0 { run_history_a(cfg, &s) } else if regime == 3 { run_history_c(cfg, &s) } else { run_history_b2(cfg, &s, regime == 2) }).unwrap();
                 println!("RT-FAIL tags={} what=[sync cache, {}] {} cfg={:?} failing_op_index={} history={:?}", f2.tags,
-                    match regime { 0 => "maintenance after every operation", 1 => "free sync placement", _ => "free sync placement, after the housekeeper's start-up window" }, f2.what, cfg, at2, &s[..(at2 + 1).min(s.len())]);
+                    match regime { 0 => "maintenance after every operation", 1 => "free sync placement", 3 => "late batches: several lookups and new-key inserts applied by one maintenance run", _ => "free sync placement, after the housekeeper's start-up window" }, f2.what, cfg, at2, &s[..(at2 + 1).min(s.len())]);
                 *findings += 1;
             }
         }
@@ -541,6 +667,28 @@ fn verif_rt_sync() {
         if !regime_a { seq.push(Op::Sync); }
         histories += 1; steps += seq.len() as u64;
         handle(cfg, &seq, regime, &mut findings, &mut seen);
+    }
+    // late batches (regime C): a random warm-up (single operations, each followed by maintenance), then batches of lookups and
+    // new-key inserts that one maintenance run applies together
+    let batch_n = if tier == "thorough" { 12_000usize } else { 1_500usize };
+    for _ in 0..batch_n {
+        if findings >= 6 { break; }
+        let cfg = cfgs[rng.below(cfgs.len())];
+        let mut seq: Vec<Op> = Vec::new();
+        for _ in 0..rng.below(7) {
+            let k = rng.below(6) as u8;
+            seq.push(match rng.below(4) { 0 | 1 => Op::Insert(k, rng.below(4) as u8), 2 => Op::Get(k), _ => Op::Advance(3) });
+            seq.push(Op::Sync);
+        }
+        for _ in 0..(1 + rng.below(3)) {
+            for _ in 0..rng.below(4) { seq.push(Op::Get(rng.below(8) as u8)); }
+            let first = rng.below(8) as u8;
+            for d in 0..(2 + rng.below(3)) { seq.push(Op::Insert((first + d as u8) % 8, rng.below(4) as u8)); if rng.below(5) == 0 { seq.push(Op::Advance(2)); } }
+            seq.push(Op::Sync);
+            if rng.below(3) == 0 { seq.push(Op::Get(rng.below(8) as u8)); seq.push(Op::Sync); }
+        }
+        histories += 1; steps += seq.len() as u64;
+        handle(cfg, &seq, 3, &mut findings, &mut seen);
     }
     // directed part: invalidate_all followed by a rewrite of the same key, repeated invalidate_all, late-applied reads
     for cfg in &cfgs {
